@@ -85,7 +85,9 @@ func (i *interpreter) termBytes(t *Term) []value {
 
 func (i *interpreter) hashModel(name string, in []value, outLen int, real func([]byte) []byte) []value {
 	if conc, ok := concreteBytes(in); ok {
-		return bytesToVals(real(conc))
+		out := real(conc)
+		i.ts.KnownHash[string(out)] = knownHash{fn: fmt.Sprintf("%s_%d", name, len(conc)), in: append([]byte(nil), conc...)}
+		return bytesToVals(out)
 	}
 	if len(in) == 0 {
 		return bytesToVals(real(nil))
